@@ -61,6 +61,10 @@ class TraceGen:
             # the design is copied first and the copy is what gets traced (a copy answers like its source)
             self.cloned = True
             return {"op": "clone", "on": self.b.netlist}
+        if self.cfg.get("trace_repoint") and getattr(self, "stage", 0) < 2:
+            e = self.repoint()
+            if e is not None:
+                return e
         if getattr(self, "pending", None):
             return self.pending.pop(0)
         if self.left > 0 and self.r.random() < self.cfg.get("edit_rate", 0.0):
@@ -72,6 +76,30 @@ class TraceGen:
         if e is not None and self.r.random() < 0.3:
             e["via"] = "method"
         return e
+
+    def repoint(self):
+        """Before the traces an instance is pointed at a copy of its cell (what uniquify does for every shared cell):
+        the cell is cloned, the copy put into the library under a new name, and the instance's reference assigned."""
+        w, r = self.w, self.r
+        hd = w.handle_of
+        self.stage = getattr(self, "stage", 0) + 1
+        if self.stage == 1:
+            n = self.net()
+            c = [(d, i) for lib in n.libraries for d in lib.definitions if len(d.ports) and hd(d) and hd(lib)
+                 for i in sorted(d.references, key=lambda i: hd(i) or "") if hd(i) and i.parent is not None]
+            if not c:
+                self.stage = 2
+                return None
+            d, i = r.choice(c)
+            self.rp = (hd(i), hd(d.library))
+            return {"op": "clone", "on": hd(d)}
+        fresh = [h for h in w.order if kind_of(w.handles[h]) == "definition" and w.handles[h].library is None]
+        if not fresh:
+            return None
+        ih, lh = self.rp
+        self.pending = [{"op": "add_definition", "on": lh, "x": fresh[-1]},
+                        {"op": "set_reference", "on": ih, "x": fresh[-1]}]
+        return {"op": "set_name", "on": fresh[-1], "v": "repointed_cell_copy"}
 
     def edit(self):
         """Between two traces a wire trades one of its pins for a free pin of the same definition (the number of pins
@@ -186,6 +214,10 @@ class C12(Prop):
         cfg["passthrough"] = rng.random() < 0.7
         cfg["edit_rate"] = rng.choice([0.0, 0.0, 0.15, 0.3])
         cfg["trace_clone"] = rng.random() < 0.15
+        # one instance is pointed at a copy of its cell first (what uniquify does for every shared cell), then the
+        # design is traced; some elements carry no name (pairing by name has nothing to hold on to)
+        cfg["trace_repoint"] = not cfg["trace_clone"] and rng.random() < 0.25
+        cfg["unnamed"] = rng.choice([0.0, 0.0, 0.3, 0.5])
         return cfg
 
     def make_gen(self, w, rng, cfg):
